@@ -9,6 +9,7 @@ mod rqjson;
 mod run;
 mod stages;
 mod target;
+mod totality;
 mod value;
 
 fn main() {
@@ -27,6 +28,7 @@ fn main() {
         "fmtrun" => fmtrun::main(&args[1..]),
         "literal" => literal::main(&args[1..]),
         "errors" => errors::main(&args[1..]),
+        "totality" => totality::main(&args[1..]),
         "number" => literal::main_numbers(&args[1..]),
         "ident" => literal::main_idents(&args[1..]),
         "lexlist" => lexrun::main_list(&args[1..]),
